@@ -202,13 +202,14 @@ class Einsum(OpDef):
     view_capable = True
 
     def np(self, a, p):
-        return np.einsum(p["subs"], *a)
+        # (optimize=True changes NumPy's contraction order, hence the last bits: same call on both sides)
+        return np.einsum(p["subs"], *a, optimize=True) if p.get("optimize") else np.einsum(p["subs"], *a)
 
     def mg(self, mg, spell, a, p, kw):
         if p.get("optimize"):
             kw = dict(kw, optimize=True)
-        if spell == "n" and not kw:
-            return np.einsum(p["subs"], *a)
+        if spell == "n" and set(kw) <= {"optimize"}:
+            return np.einsum(p["subs"], *a, **kw)
         return mg.einsum(p["subs"], *a, **kw)
 
     def ids(self, parent_ids, p):
